@@ -628,5 +628,5 @@ def run(ctx, tier):
             'positive controls must compile. The run-time half is replaced by a rule over the WHOLE public surface: (sig) every effectively public signature that takes a '
             'transaction-bound value must bound byte-capable outputs by the transaction borrow (carrier parameters are discovered by propagating the borrow of &Tx through all signatures); '
             'rejected signatures go to (flow), which accepts only owned copies (variant sensitive: only Bytes::Slice can borrow the map); (private-producers) functions whose output lifetime '
-            'no input constrains are not reachable from outside; commit consumes the transaction. (drop-reads-no-map) no destructor other than the transaction\'s own reaches the map view. NOT decided: faults in programs that compile beyond this classification.'),
+            'no input constrains are not reachable from outside; commit consumes the transaction. (drop-reads-no-map) no destructor other than the transaction\'s own reaches the map view. (tobytes-bounded) by-reference ToBytes impls launder no lifetime. NOT decided: faults in programs that compile beyond this classification.'),
         assumptions=['rustc\'s borrow checker and trait solver are sound', 'the witness corpus is type-checked with the nightly toolchain (same type system as stable)'])
